@@ -47,8 +47,7 @@ Print Assumptions old_isfull_refuted.
    (resizing copies exactly the live prefix) ... *)
 Theorem registry_grow_transparent : forall r l lim o,
   Rr r l lim -> rop_dom (len l) o = true -> rneed (len l) o <= lim ->
-  exists r', rstep r o = Ok (r', snd (lstepR l o)) /\
-             Rr r' (fst (lstepR l o)) (match o with RRaisePush => Z.max lim (len l + 1) | _ => lim end).
+  exists r', rstep r o = Ok (r', snd (lstepR l o)) /\ Rr r' (fst (lstepR l o)) lim.
 Proof. exact registry_grow_transparent_lemma. Qed.
 Print Assumptions registry_grow_transparent.
 
@@ -60,14 +59,22 @@ Theorem registry_overflow_error : forall r l lim o,
 Proof. exact registry_overflow_error_lemma. Qed.
 Print Assumptions registry_overflow_error.
 
+(* catching the error (PCall's SetTop(base)) gives back a registry under the same limit *)
+Theorem limit_constant_after_error : forall r l lim t,
+  Rr1 r l lim -> 0 <= t <= len l -> t <= limit r ->
+  exists r', SetTop r t = Ok r' /\ Rr r' (firstn (Z.to_nat t) l) lim.
+Proof. exact SetTop_down1. Qed.
+Print Assumptions limit_constant_after_error.
+
 Theorem registry_refines_list : forall ops r l lim,
   Rr r l lim -> ldomR l lim ops = true -> rrun r ops = lrunR l lim ops.
 Proof. exact registry_refines_list_lemma. Qed.
 Print Assumptions registry_refines_list.
 
-(* raiseError can always push its message, whatever the registry's size and limits *)
+(* raiseError can always push its message, whatever the registry's size and limits, and the limit
+   is afterwards what it was (Rr1: the message may sit in one cell beyond it until the error is caught) *)
 Theorem raise_has_room : forall r l lim v,
-  Rr r l lim -> exists r', raisePush r v = Ok r' /\ Rr r' (l ++ [v]) (Z.max lim (len l + 1)).
+  Rr r l lim -> exists r', raisePush r v = Ok r' /\ Rr1 r' (l ++ [v]) lim.
 Proof. exact raise_has_room_lemma. Qed.
 Print Assumptions raise_has_room.
 
